@@ -1,6 +1,8 @@
 (* C02  Compact index returns exactly the documents whose DNF is satisfied.  Statements only.
    The compact scan is the generic conjunction scan with needf c = max 1 (size c). *)
 From Coq Require Import List NArith ZArith Bool Permutation.
+From Coq Require Import ZArith.
+From BE Require Proofs.CursorGenProof Proofs.RetrieveKGenProof Proofs.CompactGenProof.
 From BE Require Import Model.Scan Model.Cursor Proofs.ScanProof Proofs.Refine Proofs.ConcreteScan.
 From BE Require Model.GoVal Model.Parsers Model.Index Gen.IdsGen Proofs.RoaringProof Proofs.IndexBuildInv Proofs.IndexCorrect Proofs.NonVacuous Model.Spec Proofs.SpecBridge Proofs.HoldersBuildInv Proofs.IndexCorrectHolders Proofs.SpecBridgeHolders Proofs.IndexCorrectPolicy Proofs.SpecBridgeHoldersPolicy.
 Import ListNotations.
@@ -172,6 +174,23 @@ Example C02_spec_nonvacuous :
   Spec.sat_hits [] NonVacuous.ex_parsers Index.PolError Spec.pl_docok NonVacuous.ex_docs NonVacuous.ex_q = Some [(1, (0, 1))]%Z.
 Proof. split; [exact NonVacuous.ex_docs_good | split; [exact NonVacuous.ex_q_good | exact NonVacuous.ex_spec_says]]. Qed.
 
+(* the tie to the source, as a theorem: the scan loop of the compact index (the loop labelled RETRIEVE in
+   CompactBEIndex.RetrieveWithCollector) TRANSLATED from be_indexer_compact.go on every run (Gen/CursorGen.v: one cursor
+   set, the needed match count taken from the smallest current entry, the early exit, the two skipping passes,
+   FieldCursors.Sort as translated, exhausted cursors dropped from the end of the slice; statements that only log are
+   dropped).  Whenever the model's loop (Index.cp_loop, the loop the theorems above are about) finishes with the
+   collector calls `out`, the translated loop returns exactly those calls on the same cursors: no index or slice bound
+   violated, the stated fuel suffices. *)
+Theorem C02_translated_compact_loop_is_model : forall f cs res out,
+  (Z.of_nat (length cs) < 2^60)%Z ->
+  BE.Model.Index.cp_loop f cs res = Some out ->
+  exists cs', BE.Proofs.CursorGenProof.G.CompactBEIndex_RetrieveWithCollector_RETRIEVE
+                BE.Model.Cursor.fcursor BE.Model.Cursor.fc_current BE.Model.Cursor.fcursor_reach_end BE.Proofs.RetrieveKGenProof.skipT
+                (f + 2 * length cs) cs res =
+              BE.Proofs.CursorGenProof.G.Ret (cs', out).
+Proof. exact BE.Proofs.CompactGenProof.compact_loop_translated_is_model. Qed.
+
+Print Assumptions C02_translated_compact_loop_is_model.
 Print Assumptions C02_generic_scan_exact.
 Print Assumptions C02_compact_index_exact.
 Print Assumptions C02_compact_documents_exact.
